@@ -71,6 +71,10 @@ def make_interp(repo, reads_log=None):
     return Interp(repo, hooks={'call': call_hook})
 
 
+TECHNIQUE += '; builder dispatch (cf_build_solver) by partial evaluation: the class constructed for an assumption set is the one its starting vectors were paired with'
+
+EXPLANATION += ' R04.9 cf_build_solver constructs, for every (layer kind, static, incompressible), the equation class R04.1 pairs the starting vectors of that assumption set with.'
+
 def run(chk):
     repo = Repo(chk.repo)
     starting_vectors(chk, repo)
